@@ -25,7 +25,8 @@ def budget(tier):
 
 def gen_cases(rng, n, tier):
     cfgs = [c for c in B.all_cfgs('blog') + B.all_cfgs('comp')[::2] + B.all_cfgs('blog', dict(class_names=True))[::2]
-            + B.all_cfgs('comp', dict(class_names=True))[::4] + [c for c in B.all_cfgs('inh') if not c['null_delete']]
+            + B.all_cfgs('comp', dict(class_names=True))[::4] + B.all_cfgs('comp', dict(pkc=True))[::2]
+            + [c for c in B.all_cfgs('inh') if not c['null_delete']]
             if c['strategy'] == 'validity']
     cases = B.gen_cases_default(rng, n, tier, cfgs=cfgs)
     inh = [c for c in B.all_cfgs('inh') if not c['null_delete'] and c['strategy'] == 'validity']
